@@ -60,3 +60,23 @@ Proof.
   destruct (upd (el_model s) (RWindowSize w h)) as [m' c]. cbn. split; reflexivity.
 Qed.
 Print Assumptions C18_size_reaches_update.
+
+(* ---- the resize listener (Proof/ResizeModel.v; listenForResize takes the signal BEFORE it reads the size, shapes tied
+   in C18_tie): for any interleaving of resizes with the listener's steps, once it is idle with no signal pending the
+   last size Update received is the terminal's true size; and the listener is never stuck with work to do *)
+From BT Require Import Proof.ResizeModel.
+Theorem C18_last_reported_size_is_true : forall n ls,
+  let s := rrun (rinit n) ls in
+  pending s = false -> lst s = LWait -> delivered s = Some (cur s).
+Proof. exact last_reported_size_is_true. Qed.
+Print Assumptions C18_last_reported_size_is_true.
+Theorem C18_resize_listener_progress : forall s,
+  (lst s = LWait -> pending s = true -> rstep s RzTake <> None) /\
+  (lst s = LRead -> rstep s RzQuery <> None) /\
+  (forall n, lst s = LSend n -> rstep s RzDeliver <> None).
+Proof. exact resize_listener_progress. Qed.
+Print Assumptions C18_resize_listener_progress.
+Example C18_resize_nonvacuous :
+  let s := rrun (rinit 80%nat) [RzQuery; RzResize 100%nat; RzDeliver; RzResize 120%nat; RzTake; RzQuery; RzDeliver] in
+  pending s = false /\ lst s = LWait /\ delivered s = Some 120%nat /\ cur s = 120%nat.
+Proof. vm_compute. repeat split. Qed.
